@@ -179,53 +179,27 @@ Proof.
 Qed.
 
 (* ------------------------------------------------------------------ reader *)
-(* the reader counts one miss per OVERDUE WAKE, not per period *)
-Lemma rrun_wakes D : forall ws s,
-  d_t (rrun D (map Wake ws) s) = d_t s /\
-  d_count (rrun D (map Wake ws) s) = d_count s + Z.of_nat (length (filter (fun w => D <? w - d_t s) ws)).
+(* on a silence (worker iterations only) the reader rule is the writer rule *)
+Lemma rrun_wakes D : forall ws s, rrun D (map Wake ws) s = wrun D (map Wake ws) s.
 Proof.
-  induction ws as [|x r IH]; intros s; [cbn; split; lia|].
+  induction ws as [|x r IH]; intros s; [reflexivity|].
   change (rrun D (map Wake (x :: r)) s) with (rrun D (map Wake r) (rstep D s (Wake x))).
-  destruct (IH (rstep D s (Wake x))) as [E1 E2]. rewrite E1, E2. cbn [filter]. unfold rstep.
-  destruct (D <? x - d_t s); cbn [d_t d_count length]; split; lia.
-Qed.
-Theorem reader_count_eq_overdue_wakes D t0 ws :
-  d_count (rrun D (map Wake ws) (dinit t0)) = Z.of_nat (length (filter (fun w => D <? w - t0) ws)).
-Proof. destruct (rrun_wakes D ws (dinit t0)) as [_ E]. rewrite E. cbn [dinit d_count d_t]. lia. Qed.
-
-(* outside the class (the overdue wakes hit the periods 1, 2, 3, ... once each) the reader
-   count is the number of elapsed periods *)
-Lemma reader_inv D t0 : 0 < D -> forall ws prev s,
-  d_t s = t0 -> d_count s = elapsed_periods D (prev - t0) -> nondecr prev ws ->
-  once_per_period D t0 (d_count s + 1) ws = true ->
-  d_count (rrun D (map Wake ws) s) = elapsed_periods D (last ws prev - t0).
-Proof.
-  intros HD. induction ws as [|x r IH]; intros prev s Ht Hc Hn Ho; [exact Hc|].
-  cbn [nondecr] in Hn. destruct Hn as [H1 H2].
-  change (rrun D (map Wake (x :: r)) s) with (rrun D (map Wake r) (rstep D s (Wake x))).
-  rewrite last_cons.
-  cbn [once_per_period] in Ho. unfold rstep. rewrite Ht.
-  destruct (D <? x - t0) eqn:E.
-  - apply andb_true_iff in Ho. destruct Ho as [Hi Ho]. apply Z.eqb_eq in Hi. unfold period_index in Hi.
-    apply IH; cbn [d_t d_count]; [reflexivity | lia | assumption | exact Ho].
-  - apply Z.ltb_ge in E. apply IH; [assumption | | assumption | exact Ho].
-    rewrite Hc. rewrite (ep_small D (prev - t0)) by lia. rewrite (ep_small D (x - t0)) by lia. reflexivity.
-Qed.
-Theorem reader_count_eq_elapsed_periods_unless_known D t0 ws :
-  0 < D -> nondecr t0 ws -> reader_known D t0 ws = false ->
-  d_count (rrun D (map Wake ws) (dinit t0)) = elapsed_periods D (last ws t0 - t0).
-Proof.
-  intros HD Hn Hk. unfold reader_known in Hk. apply negb_false_iff in Hk.
-  apply (reader_inv D t0 HD ws t0 (dinit t0)); try assumption; try reflexivity.
-  cbn [dinit d_count]. rewrite Z.sub_diag. reflexivity.
+  change (wrun D (map Wake (x :: r)) s) with (wrun D (map Wake r) (wstep D s (Wake x))).
+  rewrite IH. reflexivity.
 Qed.
 
-(* the unrestricted statement is false: deadline 100, sample at 0, worker iterations at
-   150, 200, 250: three reports although two periods have elapsed *)
-Theorem reader_count_eq_elapsed_periods_refuted :
-  exists D t0 ws, 0 < D /\ nondecr t0 ws /\ reader_known D t0 ws = true /\
-    d_count (rrun D (map Wake ws) (dinit t0)) = 3 /\ elapsed_periods D (last ws t0 - t0) = 2.
-Proof. exists 100, 0, [150; 200; 250]. cbn [nondecr]. repeat split; try lia; vm_compute; reflexivity. Qed.
+(* C30, reader: with at least one worker iteration per period, the requested-deadline-missed
+   count of an instance after a silence is the number of full periods that elapsed *)
+Theorem reader_count_eq_elapsed_periods D t0 ws :
+  0 < D -> dense D t0 ws ->
+  let s := rrun D (map Wake ws) (dinit t0) in
+  d_count s = elapsed_periods D (last ws t0 - t0) /\ d_t s = t0 + d_count s * D.
+Proof. intros HD Hd. rewrite rrun_wakes. apply writer_count_eq_elapsed_periods; assumption. Qed.
+(* and for any iteration times it never reports more misses than periods have elapsed *)
+Theorem reader_count_le_elapsed_periods D t0 ws :
+  0 < D -> nondecr t0 ws ->
+  d_count (rrun D (map Wake ws) (dinit t0)) <= elapsed_periods D (last ws t0 - t0).
+Proof. intros HD Hn. rewrite rrun_wakes. apply writer_count_le_elapsed_periods; assumption. Qed.
 
 (* ------------------------------------------------------------------ tie to the (sec, nanosec) model *)
 (* The per-instance rules above are the ones of Sched/WorkerModel.v (which keeps the code's
@@ -293,11 +267,18 @@ Proof.
   - split; reflexivity.
 Qed.
 
-(* the overdue test of check_missed_reader_deadline is the one of rstep in ns *)
-Theorem reader_overdue_refines_rstep now dl last :
+(* check_missed_reader_deadline on one instance (WorkerModel.check_rinst) is rstep in ns *)
+Theorem check_rinst_refines_rstep now dl last key :
   small now -> small last -> small dl ->
-  dur_ltb dl (time_sub now last) = (nanos dl <? nanos now - nanos last).
+  let '(i', n) := check_rinst now dl (key, last) in
+  let s' := rstep (nanos dl) (mkD (nanos last) 0 []) (Wake (nanos now)) in
+  nanos (snd i') = d_t s' /\ n = d_count s'.
 Proof.
-  intros Hn Hl Hd. pose proof (small_time_sub_norm now last Hn Hl) as Hts. rewrite (dur_ltb_nanos dl (time_sub now last) (proj1 Hd) Hts).
-  rewrite (small_time_sub_exact now last Hn Hl). reflexivity.
+  intros Hn Hl Hd. pose proof (small_time_sub_norm now last Hn Hl) as Hts.
+  unfold check_rinst; cbn [fst snd]. unfold rstep; cbn [d_t d_count d_signals].
+  rewrite (dur_ltb_nanos dl (time_sub now last) (proj1 Hd) Hts).
+  rewrite (small_time_sub_exact now last Hn Hl).
+  destruct (nanos dl <? nanos now - nanos last); cbn [fst snd d_t d_count].
+  - rewrite (small_add_exact last dl Hl Hd). split; reflexivity.
+  - split; reflexivity.
 Qed.
